@@ -33,6 +33,8 @@ PROMISED = [2, 4, 6, 3, 0]
 
 
 class Spec(L.Spec):
+    go_on_after_refusal = True       # a refused push_stream is a no-op: what follows it is judged as if it had not been made
+
     def __init__(self, key):
         _, role, tier = key
         client = role == "client"
@@ -100,7 +102,8 @@ class Spec(L.Spec):
                     "promised_status": m.status(promised) if promised else "zero",
                     "hi_local": m.hi_local, "hi_peer": m.hi_peer}
             if parts[0] == "l":
-                o = h.api("push_stream", parent, promised, H.ni(hdrs))
+                # indexable fields: a refused call that has been through the HPACK encoder shows at the next promise
+                o = h.api("push_stream", parent, promised, list(hdrs))
             else:
                 info["verdict"] = SM.recv_verdict(m, "push", parent, promised=promised)
                 o = h.rx([wire.push_promise(parent, promised, sb(hdrs))], ("push", parent, promised))
@@ -208,6 +211,23 @@ class Spec(L.Spec):
             # re-promising a used id / a wrong-parity id is C09's subject; whatever the library answered, the
             # streams involved are no longer in a state this model describes
             st.dead = True
+        elif info["p_closed_by"] == "send_rst" and got == ("refuse-promised",):
+            pass            # raced our own reset of the parent (whatever kind of stream it was): refusing the promise is C20's rule
+        elif info["pstate"] == "hc_remote" and got == ("refuse-promised",):
+            # the known defect of C06 (the parent is silently marked closed): reported once, then the path ends here,
+            # because the library and the model no longer agree on the parent's state
+            if not info["badlist"]:
+                bad("push-promise-verdict", "%s on a half-closed(remote) parent: allowed %s, library refused the promised stream and closed "
+                    "the parent without a frame [%s]" % (lab, sorted(map(str, verdict)), o.brief()),
+                    parent_state="hc_remote", closed_by="None", got=str(got), forgotten=False)
+            st.dead = True
+        elif not info["badlist"] and got not in verdict:
+            # HOW it is turned down matters too: a promise on a parent the PEER reset (or that ended) is a connection error,
+            # only a promise that raced OUR reset of the parent is merely refused
+            bad("push-promise-verdict", "%s (parent %s, closed_by=%s, %s): allowed %s, library did %s [%s]" % (
+                lab, info["pstate"], info["p_closed_by"], info["pstatus"], sorted(map(str, verdict)), got, o.brief()),
+                parent_state=info["pstate"], closed_by=str(info["p_closed_by"]), got=str(got),
+                forgotten=info["pstatus"] in ("forgotten", "maybe_forgotten"))
         return "rx-push-refused"
 
 
